@@ -210,6 +210,10 @@ def run(ctx):
             ("WagnerSoftDecisionDecoder", spc, D.WagnerSoftDecisionDecoder(spc)), ("ReedMullerDecoder(soft)", rm, D.ReedMullerDecoder(rm, input_type="soft")),
             ("SuccessiveCancellationDecoder", polar, quiet(D.SuccessiveCancellationDecoder, polar)), ("BeliefPropagationPolarDecoder", polar, quiet(D.BeliefPropagationPolarDecoder, polar))]
     # longer codes and non-default conventions: frozen ones in polar codes, long parity checks with very small / very large LLRs
+    for N_, k_ in ((8, 6), (16, 12), (32, 24)):       # high rates: information bits behind several nested check-node steps
+        pe = quiet(E.PolarCodeEncoder, k_, N_)
+        decs.append(("SuccessiveCancellationDecoder(N=%d,k=%d)" % (N_, k_), pe, quiet(D.SuccessiveCancellationDecoder, pe)))
+        decs.append(("BeliefPropagationPolarDecoder(N=%d,k=%d)" % (N_, k_), pe, quiet(D.BeliefPropagationPolarDecoder, pe)))
     for N_, k_ in ((16, 8), (32, 12)):
         for fz in (True, False):
             for pi_ in (False, True):
@@ -229,7 +233,7 @@ def run(ctx):
         msgs_ = list(range(1 << k)) if k <= 8 else sorted({rng.getrandbits(k) for _ in range(48)} | {0, (1 << k) - 1})
         X = torch.tensor([fec.int_to_bits(m_, k) for m_ in msgs_], dtype=torch.float32)
         C = quiet(enc, X)
-        mags = (1e-3 if "Wagner" in dname else 0.5, 1.0, 1e3 if "Wagner" in dname else 30.0) + ((1e-4, 1e-2, 1e4) if "SPC" in dname else ())
+        mags = (1e-3, 1e-2, 0.1, 0.5, 1.0, 30.0, 1e3) + ((1e-4, 1e4) if "SPC" in dname else ())
         # unequal per-bit magnitudes as a 16-QAM soft demodulator produces them (noise-free), when the length allows
         if C.shape[1] % 4 == 0 and ("Successive" in dname or "Polar" in dname or "SPC" in dname):
             llr_q = qdem(qam(C), noise_var=0.5)
@@ -245,6 +249,22 @@ def run(ctx):
             if not torch.equal(out.float(), X):
                 ctx.violation("C15/%s/polarity" % dname.split("(")[0], "%s: LLRs +%g for 0 / -%g for 1 of the codewords do not decode to the messages" % (dname, mag, mag), {"decoder": dname, "magnitude": mag})
                 break
+    # the two-input check-node rules themselves: sign = product of signs on the whole magnitude grid (polarity only: magnitudes are C10/C11's business)
+    from kaira.models.fec import utils as FU
+    grid = [s_ * m_ for m_ in (1e-3, 3e-3, 1e-2, 0.1, 0.5, 1.0, 3.0, 10.0, 30.0, 100.0, 1e3) for s_ in (1, -1)]
+    for fname in ("sum_product", "min_sum"):
+        f_ = getattr(FU, fname, None)
+        if f_ is None:
+            continue
+        xs = torch.tensor([a for a in grid for _ in grid], dtype=torch.float32)
+        ys = torch.tensor([b for _ in grid for b in grid], dtype=torch.float32)
+        out = f_(xs, ys)
+        ctx.count("check-node-rule-points", int(xs.numel()))
+        bad = (torch.sign(out) != torch.sign(xs) * torch.sign(ys))
+        if bool(bad.any()):
+            j = int(bad.nonzero()[0])
+            ctx.violation("C15/%s/check-node-sign" % fname, "%s(%g, %g) = %g: a check of two LLRs must carry the product of their signs" % (fname, float(xs[j]), float(ys[j]), float(out[j])),
+                          {"function": fname, "x": float(xs[j]), "y": float(ys[j])})
     ctx.assumptions += ["real-number theorems use the standard-library axioms of Coq's Reals (named in axioms_used)",
                         "HysteresisThresholder is exercised outside the dead zone of its default thresholds (|LLR| > ln 1.5): inside it the output is the previous state by design",
                         "data-dependent thresholders (adaptive mean/median, dynamic) are exercised on balanced inputs; their decision is proved monotone, the threshold itself is data"]
